@@ -787,4 +787,15 @@ def rotation_exact(repo: Repo) -> RuleRun:
 rotation_exact.rule_id = "C13.ROTATION-EXACT"
 
 
-RULES = [rollback, probe_restore, who_writes_points, backport_rule, warning_filter, affine_kinds, link_relation, owns_geometry, angle_dimension, float_stores, backport_table, mirror_matrix, grid_quality, symmetry_exact, match_tolerance, links_accumulate, boundary, no_alias_snapshot, radial_exact, rotation_exact, link_chain]
+
+def direction_length(repo: Repo) -> RuleRun:
+    """'linked vertices keep their ... mirror relation to their leader' / 'mirroring any entity ...': a mirror plane is given by a direction - its normal at any length. Shared rule (affine.direction_length_rule)."""
+    from ..affine import direction_length_rule
+
+    return direction_length_rule(repo, PROP, "C13.DIRECTION-LENGTH")
+
+
+direction_length.rule_id = "C13.DIRECTION-LENGTH"
+
+
+RULES = [rollback, probe_restore, who_writes_points, backport_rule, warning_filter, affine_kinds, link_relation, owns_geometry, angle_dimension, float_stores, backport_table, mirror_matrix, grid_quality, symmetry_exact, match_tolerance, links_accumulate, boundary, no_alias_snapshot, radial_exact, rotation_exact, link_chain, direction_length]
